@@ -4,7 +4,7 @@ from . import _core_common as cc
 PROP = 'C01'
 ENGINE = 'coresim'
 HASH_CLASSES = 1
-RUNS = {'quick': 1000, 'thorough': 30000}
+RUNS = {'quick': 2000, 'thorough': 30000}
 RUN_TIMEOUT = 240
 DETERMINISM_RUNS = 8
 RULE = ("Each run = one generated spacetime (HOM / ON exact solutions via "
@@ -14,14 +14,19 @@ RULE = ("Each run = one generated spacetime (HOM / ON exact solutions via "
         "frozen via freeze_data or load_data, + seeded cache knobs (period "
         "1..20, memory threshold 1..40 scalars or 4 GB, importance "
         "overrides) + a guard-aware history of 2-24 GET/HELPER/"
-        "SET_IMPORTANCE ops. After every op the value/outcome is compared "
+        "SET_IMPORTANCE ops, ~7% of the requests with one injected "
+        "allocation failure. After every op the value/outcome is compared "
         "with a fresh no-eviction instance asked only that request. "
         "Non-trivial: >=1 eviction fired AND >=1 value compared AND <=30% "
         "vacuous ops. Distinct = distinct (class, variant, knobs, fired "
         "faults, multiset of requested keys).")
 PROBES = ['eviction', 'eviction_during_nested_request', 'importance_override',
           'cache_hit_request', 'regular_cleanup_fired',
-          'inputs_omitted_defaults_in_play', 'guard_key_cached_computed']
+          'inputs_omitted_defaults_in_play', 'guard_key_cached_computed',
+          'alloc_failure_injected', 'alloc_failure:einsum',
+          'alloc_failure:call', 'alloc_failure:getitem',
+          'partial_results_kept_after_failure',
+          'input_supplied_after_its_default_was_computed']
 COMPONENTS = cc.COMPONENTS
 ASSUMPTIONS = [
     'keys whose evaluation touches st_Ricci_down4 / st_Ricci_down3 / '
